@@ -154,6 +154,18 @@ def install(reg: Registry):
     Base = z3.Function('Base', Str, Str, Addr)          # the declaration whose copy is the entry for s: the nearest overriding
                                                         # declaration on the way up, else the top-most declaration of s
 
+    RX = z3.Function('RX', Str, Str, z3.BoolSort())      # the entry's 'reaches' is a dict that has a 'stepExpressions' list
+    XLen = z3.Function('XLen', Str, Str, z3.IntSort())   # length of that list
+    XAt = z3.Function('XAt', Str, Str, z3.IntSort(), Addr)   # the expression record of the specification its j-th element is a copy of
+    XOv = z3.Function('XOv', Str, Str, Val)              # value under 'overrides' in the entry's reaches dict
+    ENTRY_OF = z3.Function('ENTRY_OF', Addr, Str)        # inverse maps (Dual hypotheses): entry dict -> step name, expression list -> step name
+    LIST_OF = z3.Function('LIST_OF', Addr, Str)
+    SEK = K_('stepExpressions')
+
+    def d_reaches(h, d): return h.val(d, K_('reaches'))
+    def d_has_se(h, d): return z3.And(is_VRef(d_reaches(h, d)), h.has(v_a(d_reaches(h, d)), SEK))
+    def d_sel(h, d): return v_a(h.val(v_a(d_reaches(h, d)), SEK))
+
     def spec_assets_of(h, L):
         return v_a(h.val(h.f('_lang_spec', L), K_('assets')))
 
@@ -186,6 +198,65 @@ def install(reg: Registry):
                 z3.If(z3.Not(inh_sup), v_a(dec),
                       z3.If(z3.Not(truthy_opt_dict(h, reaches)), Base(v_s(sup), s),
                             z3.If(h.val(v_a(reaches), K_('overrides')) == VBool(True), v_a(dec), Base(v_s(sup), s)))))), [Base(nm, s)])),
+        ] + reach_defs(h, L)
+
+    def reach_defs(h, L):
+        """the expression list of an entry, as a sequence of specification records: the declaration's own list where the entry
+        is (a copy of) that declaration; the inherited sequence where the declaration adds nothing; the inherited sequence
+        followed by the declaration's list where the declaration extends (+>)"""
+        nm, s = z3.Const('nm!rd', Str), z3.Const('s!rd', Str)
+        j = z3.Int('j!rd')
+        sa = SAsset(nm)
+        rec = v_a(sa)
+        sup = h.val(rec, K_('superAsset'))
+        S_ = v_s(sup)
+        has_sup = z3.And(is_VStr(sup), S_ != str_const(''))
+        dec = SDecl(rec, s)
+        d = v_a(dec)
+        inh_sup = z3.And(has_sup, Inh(S_, s))
+        declared = is_VRef(dec)
+        tr = truthy_opt_dict(h, d_reaches(h, d))
+        ov = h.val(v_a(d_reaches(h, d)), K_('overrides')) == VBool(True)
+        own = z3.And(declared, z3.Or(z3.Not(inh_sup), z3.And(tr, ov)))
+        keep = z3.Or(z3.Not(declared), z3.And(declared, inh_sup, z3.Not(tr)))
+        guard = z3.And(is_VRef(sa), Inh(nm, s))
+        xlen_d = h.len(d_sel(h, d))
+        return [
+            ('RX.def', FA([nm, s], z3.Implies(guard, RX(nm, s) == z3.If(own, d_has_se(h, d), z3.If(keep, RX(S_, s), z3.BoolVal(True)))), [RX(nm, s)])),
+            ('XLen.def', FA([nm, s], z3.Implies(guard, XLen(nm, s) == z3.If(own, xlen_d, z3.If(keep, XLen(S_, s), z3.If(RX(S_, s), XLen(S_, s) + xlen_d, xlen_d)))),
+                            [XLen(nm, s)])),
+            ('XAt.def', FA([nm, s, j], z3.Implies(guard, XAt(nm, s, j) == z3.If(own, v_a(h.at(d_sel(h, d), j)), z3.If(keep, XAt(S_, s, j), z3.If(
+                RX(S_, s), z3.If(j < XLen(S_, s), XAt(S_, s, j), v_a(h.at(d_sel(h, d), j - XLen(S_, s)))), v_a(h.at(d_sel(h, d), j)))))), [XAt(nm, s, j)])),
+            ('XOv.def', FA([nm, s], z3.Implies(guard, XOv(nm, s) == z3.If(own, h.val(v_a(d_reaches(h, d)), K_('overrides')), z3.If(keep, XOv(S_, s), z3.If(
+                RX(S_, s), XOv(S_, s), VBool(False))))), [XOv(nm, s)])),
+        ]
+
+    def entry_spec(h, e, U, s, R):
+        """entry dict e carries the expression sequence specified for (type U, step s)"""
+        r = h.val(e, K_('reaches'))
+        L_ = v_a(h.val(v_a(r), SEK))
+        j = z3.Int('j!es')
+        return z3.And(
+            h.has(e, K_('reaches')), z3.Or(is_VNone(r), z3.And(is_VRef(r), h.cls(v_a(r)) == CLS_DICT, v_a(r) != R, v_a(r) >= 0, v_a(r) < h.alloc)),
+            RX(U, s) == z3.And(is_VRef(r), h.has(v_a(r), SEK)),
+            z3.Implies(RX(U, s), z3.And(
+                is_VRef(h.val(v_a(r), SEK)), h.cls(L_) == CLS_LIST, h.len(L_) == XLen(U, s), L_ >= 0, L_ < h.alloc,
+                h.val(v_a(r), K_('overrides')) == XOv(U, s),
+                FA([j], z3.Implies(z3.And(0 <= j, j < XLen(U, s)), z3.And(is_VRef(h.at(L_, j)), h.orig(v_a(h.at(L_, j))) == XAt(U, s, j))), [h.at(L_, j)]))))
+
+    def distinct_entries(h, R, have, rx_of):
+        """different step names have different entry dicts and different expression lists (so that an update of one entry does
+        not touch another).  Dual: proved pairwise, assumed as inverse functions."""
+        s1, s2 = z3.Const('s1!de', Str), z3.Const('s2!de', Str)
+        e = lambda q: v_a(h.val(R, VStr(q)))
+        lst = lambda q: v_a(h.val(v_a(h.val(e(q), K_('reaches'))), SEK))
+        return [
+            ('entries-distinct', Dual(
+                FA([s1, s2], z3.Implies(z3.And(have(s1), have(s2), e(s1) == e(s2)), s1 == s2), [(h.val(R, VStr(s1)), h.val(R, VStr(s2)))]),
+                FA([s1], z3.Implies(have(s1), ENTRY_OF(e(s1)) == s1), [h.val(R, VStr(s1))]))),
+            ('lists-distinct', Dual(
+                FA([s1, s2], z3.Implies(z3.And(have(s1), have(s2), rx_of(s1), rx_of(s2), lst(s1) == lst(s2)), s1 == s2), [(h.val(R, VStr(s1)), h.val(R, VStr(s2)))]),
+                FA([s1], z3.Implies(z3.And(have(s1), rx_of(s1)), LIST_OF(lst(s1)) == s1), [h.val(R, VStr(s1))]))),
         ]
 
     def entries(c, h, R, have, base_of):
@@ -205,6 +276,9 @@ def install(reg: Registry):
         if functional:
             T_ = c.asset_type
             out += [('fold.' + nm, f) for nm, f in entries(c, h, R, lambda s: Inh(T_, s), lambda s: Base(T_, s))]
+            s_ = z3.Const('s!rp', Str)
+            out.append(('fold.reaches', FA([s_], z3.Implies(Inh(T_, s_), entry_spec(h, v_a(h.val(R, VStr(s_))), T_, s_, R)), [h.val(R, VStr(s_))])))
+            out += [('fold.' + nm, f) for nm, f in distinct_entries(h, R, lambda q: Inh(T_, q), lambda q: RX(T_, q))]
         return out
 
     def inv(c: LCtx):
@@ -218,15 +292,29 @@ def install(reg: Registry):
         done_decl = lambda s: z3.And(is_VRef(SDecl(rec, s)), z3.Select(c.done, SDecl(rec, s)) > 0)
         have = lambda s: z3.Or(z3.And(has_sup, Inh(v_s(sup), s)), done_decl(s))
         base_of = lambda s: z3.If(done_decl(s), Base(T_, s), Base(v_s(sup), s))
+        s_ = z3.Const('s!ri', Str)
+        e_ = v_a(h.val(R, VStr(s_)))
         return post(c, R, h, functional=False) + [('fold.' + nm, f) for nm, f in entries(c, h, R, have, base_of)] + [
-            ('asset-record', z3.And(SAsset(T_) == VRef(rec), c.it == v_a(o.val(rec, K_('attackSteps')))))]
+            ('asset-record', z3.And(SAsset(T_) == VRef(rec), c.it == v_a(o.val(rec, K_('attackSteps'))))),
+            ('fold.reaches', FA([s_], z3.Implies(have(s_), z3.And(z3.Implies(done_decl(s_), entry_spec(h, e_, T_, s_, R)),
+                                                                 z3.Implies(z3.Not(done_decl(s_)), entry_spec(h, e_, v_s(sup), s_, R)))), [h.val(R, VStr(s_))])),
+        ] + [('fold.' + nm, f) for nm, f in distinct_entries(h, R, have, lambda q: z3.If(done_decl(q), RX(T_, q), RX(v_s(sup), q)))]
 
     def originals(h, L):
         """the step records of the specification are originals (their own origin)"""
         a, d = A('a!og'), A('d!og')
         AL = spec_assets_of(h, L)
-        return FA([a, d], z3.Implies(z3.And(h.cnt(AL, a) > 0, h.cnt(v_a(h.val(a, K_('attackSteps'))), d) > 0), h.orig(d) == d),
-                  [h.cnt(v_a(h.val(a, K_('attackSteps'))), d)])
+        j = z3.Int('j!og')
+        member = z3.And(h.cnt(AL, a) > 0, h.cnt(v_a(h.val(a, K_('attackSteps'))), d) > 0)
+        rd = v_a(d_reaches(h, d))
+        return z3.And(
+            # langspec layout: a reaches dict carries a boolean 'overrides'
+            FA([a, d], z3.Implies(z3.And(member, is_VRef(d_reaches(h, d))), z3.And(h.has(rd, K_('overrides')), is_VBool(h.val(rd, K_('overrides'))))),
+               [h.cnt(v_a(h.val(a, K_('attackSteps'))), d)]),
+            FA([a, d], z3.Implies(member, h.orig(d) == d), [h.cnt(v_a(h.val(a, K_('attackSteps'))), d)]),
+            FA([a, d, j], z3.Implies(z3.And(member, d_has_se(h, d), 0 <= j, j < h.len(d_sel(h, d))),
+                                     z3.And(is_VRef(h.at(d_sel(h, d), j)), h.orig(v_a(h.at(d_sel(h, d), j))) == v_a(h.at(d_sel(h, d), j)))),
+               [(h.cnt(v_a(h.val(a, K_('attackSteps'))), d), h.at(d_sel(h, d), j))]))
 
     def dc_hint(c):
         """what is copied belongs to the (unchanged) specification"""
@@ -260,10 +348,13 @@ def install(reg: Registry):
                      ensures=lambda c: post(c, c.res, c.h), modifies=CONTAINER_ARRAYS, allocates=True,
                      decreases=lambda c: depth(c.asset_type), loops={0: LoopSpec(inv)},
                      locals_ty={'attack_steps': STEPS_RESULT}, call_lemmas={'deepcopy': dc_hint}, props=('C03', 'C16'),
-                     may_raise=('KeyError', 'TypeError', 'AttributeError'),
-                     note='proved: purity (nothing allocated before the call is written), separation (everything reachable from the '
-                          'result is fresh), termination. NOT proved here: absence of KeyError/TypeError/AttributeError on the result '
-                          'records and the fold equation abs(result) == Steps(T) — both left to the bounded floor of C03'))
+                     may_raise=(),
+                     note='proved: the fold of the property statement — the result has exactly the step names the type declares or inherits; each '
+                          'entry is a copy (ghost origin map) of its base declaration (nearest overriding declaration, else the top-most one); its '
+                          'expression list is the inherited sequence, replaced by an override (->), extended by an extension (+>), untouched by a '
+                          'redefinition without reaches — as sequences of specification records; purity (nothing allocated before the call is '
+                          'written), separation (everything reachable from the result is fresh), termination, no KeyError / TypeError under the '
+                          'langspec record layout (TYPES).  Assumed: DEEPCOPY.'))
 
 
 # ---------------------------------------------------------------------------------------------------
